@@ -3,6 +3,7 @@ import OcppModel.DriverDateTime
 import OcppModel.DriverDisp
 import OcppModel.DriverOcppJ
 import OcppModel.DriverWs
+import OcppModel.DriverCodec
 
 /-! Line-protocol oracle: `driver <suite>` reads one operation per line on stdin and prints the model's
     observable output for each. -/
@@ -68,5 +69,6 @@ def main (args : List String) : IO UInt32 := do
   | ["wsio"] => loopGen stdin stdout Ocpp.Drv.stepWsIO {}; pure 0
   | ["wscli"] => loopGen stdin stdout Ocpp.Drv.stepWsCli {}; pure 0
   | ["wska"] => loopPure stdin stdout Ocpp.Drv.stepWsKa; pure 0
+  | ["codec"] => loopPure stdin stdout Ocpp.Drv.stepCodecAny; pure 0
   | ["datetime"] => loopPure stdin stdout Ocpp.Drv.stepDateTime; pure 0
   | _ => IO.eprintln "usage: driver <suite>"; pure 2
